@@ -52,7 +52,9 @@ class C19(Spec):
     harness_test = "TestVF_Limiter"
     coq_targets = ["theories/Properties/C19.vo"]
     obligations = ["C19_construction", "C19_construction_milli", "C19_monitor", "C19_built", "C19_upper", "C19_lower",
-                   "C19_tokens_invariant", "C19_pinned_refuted", "C19_nonvacuous"]
+                   "C19_tokens_invariant", "C19_pinned_refuted", "C19_nonvacuous",
+                   "C19_admitted_is_verify", "C19_admitted_is_serve", "C19_refused_not_performed", "C19_refused_miss",
+                   "C19_refused_blind", "C19_sessions_exempt", "C19_sessions_never_verify", "C19_limiter_nonvacuous"]
     header = HEADER
     footer = FOOTER
     harness_timeout = 600
